@@ -657,8 +657,12 @@ def check_batch(case, ctx):
     else:
         rt_ = 1e-11
     zb = ':thickness-map-with-zeros' if mixed_zero else ''
-    U.check_close(r, rl, rt_, 'batch:%s:r%s' % (pol, zb), 'batched r vs loop, %s' % desc, atol=rt_ * 0.01)
-    U.check_close(t, tl, rt_, 'batch:%s:t%s' % (pol, zb), 'batched t vs loop, %s' % desc, atol=rt_ * 0.01)
+    # r and t are amplitude coefficients of order one.  In float32 a coefficient that is zero by cancellation (an interface between equal indices
+    # next to grazing incidence) is rounding residue in both paths, so single precision is compared on the scale of one, not of the value itself
+    # (found by a background sweep)
+    at_ = rt_ if num == 'f32' else rt_ * 0.01
+    U.check_close(r, rl, rt_, 'batch:%s:r%s' % (pol, zb), 'batched r vs loop, %s' % desc, atol=at_)
+    U.check_close(t, tl, rt_, 'batch:%s:t%s' % (pol, zb), 'batched t vs loop, %s' % desc, atol=at_)
     if cplx:    # the energy bound of absorbing stacks, element by element of the batched result
         ns = np.real(n[-1])
         cs = np.sqrt(np.maximum(0.0, 1.0 - (n0 * math.sin(th0) / ns) ** 2))
